@@ -7,10 +7,12 @@ package config
 //	at Backup time - changed files get their old content back (nothing of the rejected content stays behind), deleted
 //	files come back, files the rejected update added are removed.
 //
-// Exhaustive over: three managed locations (a flow file, a quota file, the gateway configuration file), each absent /
-// short content / long content before the backup, and each absent / short / long / other content after the rejected
-// update: 27 x 64 = 1728 histories on the real file system (a temporary directory), the REAL Backup and Restore.
-// Labelled bounded: never counted as proved.
+// Exhaustive over: three managed locations, each absent / short content / long content before the backup, and each
+// absent / short / long / other content after the rejected update: 27 x 64 = 1728 histories on the real file system (a
+// temporary directory), the REAL Backup and Restore - once with the locations at the top level (a flow file, a quota
+// file, the gateway configuration file) and once with two of them below a sub-directory of a managed directory
+// (path_params/tenants/p.yaml, flows/team/f.yaml: SaveFlow and friends create such parents, the path-parameter loader
+// reads them recursively). Labelled bounded: never counted as proved.
 
 import (
 	"os"
@@ -19,6 +21,14 @@ import (
 )
 
 func TestBoundedC08BackupChangeRestore(t *testing.T) {
+	c08Histories(t, false)
+}
+
+func TestBoundedC08BackupChangeRestoreNested(t *testing.T) {
+	c08Histories(t, true)
+}
+
+func c08Histories(t *testing.T, nested bool) {
 	contents := []string{"", "short", "a much longer content than the short one, so that a tail could stay behind", "other"}
 	checked := 0
 	for before := 0; before < 27; before++ {
@@ -33,6 +43,9 @@ func TestBoundedC08BackupChangeRestore(t *testing.T) {
 				}
 			}
 			paths := []string{filepath.Join(flows, "f.yaml"), filepath.Join(quotas, "q.yaml"), filepath.Join(root, "gateway_config.yaml")}
+			if nested {
+				paths = []string{filepath.Join(flows, "team", "f.yaml"), filepath.Join(params, "tenants", "p.yaml"), filepath.Join(quotas, "q.yaml")}
+			}
 			set := func(code, base int) {
 				for _, p := range paths {
 					c := code % base
@@ -40,6 +53,9 @@ func TestBoundedC08BackupChangeRestore(t *testing.T) {
 					if c == 0 {
 						_ = os.Remove(p)
 						continue
+					}
+					if err := os.MkdirAll(filepath.Dir(p), 0o755); err != nil {
+						t.Fatal(err)
 					}
 					if err := os.WriteFile(p, []byte(contents[c]), 0o644); err != nil {
 						t.Fatal(err)
@@ -49,7 +65,7 @@ func TestBoundedC08BackupChangeRestore(t *testing.T) {
 			set(before, 3)
 			fs := &FileSystemOperation{
 				directories: map[string]string{flowsDirKey: flows, quotasDirKey: quotas, pathParamsDirKey: params},
-				files:       map[string]string{gatewayConfigFileKey: paths[2], metricsConfigFileKey: filepath.Join(root, "metrics.yaml")},
+				files:       map[string]string{gatewayConfigFileKey: filepath.Join(root, "gateway_config.yaml"), metricsConfigFileKey: filepath.Join(root, "metrics.yaml")},
 				backUp:      newFileSystemBackUp(),
 			}
 			if err := fs.Backup(); err != nil {
@@ -77,5 +93,5 @@ func TestBoundedC08BackupChangeRestore(t *testing.T) {
 			checked++
 		}
 	}
-	t.Logf("REPLAY bounded: %d backup/change/restore histories checked", checked)
+	t.Logf("REPLAY bounded: %d backup/change/restore histories checked (nested locations: %v)", checked, nested)
 }
